@@ -217,7 +217,8 @@ const (
 	itTag
 )
 
-// c11Gattr: a general piece inside a tag (Coq gattr): vk 0 = name only, 1 = name=unquoted, 2 = name=quoted
+// c11Gattr: a general piece inside a tag (Coq gattr): vk 0 = name only, 1 = name=unquoted, 2 = name=quoted,
+// 3 = name=quoted but cut by the ?> of the processing instruction (no closing quote)
 type c11Gattr struct {
 	lead, name string
 	vk         int
@@ -390,7 +391,9 @@ func (b *xbuilder) addPI(prolog bool) {
 	} else {
 		names := map[string]bool{}
 		for k := r.Intn(3); k > 0; k-- {
-			it.attrs = append(it.attrs, genXMLAttr(r, names))
+			a := genXMLAttr(r, names)
+			a.val = strings.ReplaceAll(a.val, "?>", "? >") // a processing instruction ends at its first ?>
+			it.attrs = append(it.attrs, a)
 		}
 	}
 	it.ws = genXMLWS(r, false)
@@ -711,6 +714,10 @@ func buildDoc(items []xitem) *xdoc {
 					raw := g.lead + g.name + g.w1 + "=" + g.w2 + g.val
 					d.src = append(d.src, raw...)
 					tok(xtok{tt: xml.AttributeToken, data: raw, text: g.name, attr: g.val})
+				case 3:
+					q := string(g.q)
+					d.src = append(d.src, g.lead+g.name+g.w1+"="+g.w2+q+g.val...)
+					tok(xtok{tt: xml.AttributeToken, data: g.lead + g.name + g.w1 + "=" + g.w2 + q + normWS(g.val), text: g.name, attr: q + normWS(g.val)})
 				default:
 					q := string(g.q)
 					d.src = append(d.src, g.lead+g.name+g.w1+"="+g.w2+q+g.val+q...)
